@@ -358,7 +358,8 @@ pub fn gen_c08(rng: &mut Rng, tier: Tier) -> Case {
 
 pub fn gen_c08_with(rng: &mut Rng, tier: Tier, real_scale: bool) -> Case {
     if real_scale {
-        let req = *rng.pick(&[Some(0usize), Some(1024), Some(10 * 1024 * 1024), Some(16 * 1024 * 1024), None]);
+        // budgets: below the shipped minimum, at it, and values that are not multiples of any power of two
+        let req = *rng.pick(&[Some(0usize), Some(1024), Some(10 * 1024 * 1024), Some(16 * 1024 * 1024), Some(15_000_000), Some(12_345_678), Some(10 * 1024 * 1024 + 1), None]);
         let allow_realloc = rng.chance(1, 2);
         let knobs = SortKnobs {
             raw_threshold: None,
